@@ -100,7 +100,7 @@ def guarded(f, t=1.0):
     old = signal.signal(signal.SIGPROF, on)
     try:
         try:
-            signal.setitimer(signal.ITIMER_PROF, t)
+            signal.setitimer(signal.ITIMER_PROF, t, 0.25)
             return f()
         finally:
             signal.setitimer(signal.ITIMER_PROF, 0)
